@@ -857,9 +857,17 @@ func (s *sim) scenarioBody(n int, withBlocks bool) {
 				tag = s.grp
 			}
 			s.ops = append(s.ops, fmt.Sprintf("G:%d", tag))
-		case x < 80:
+		case x < 79:
 			if s.grp < 0 {
 				s.ops = append(s.ops, "T")
+			}
+		case x < 80:
+			if s.grp < 0 && withBlocks { // restart: a new session with another policy on the same chain
+				np := randomPolicy(r)
+				np.minRelayFee = s.pol.minRelayFee
+				s.pol = np
+				s.ops = append(s.ops, "N:"+np.String())
+				pending = nil
 			}
 		case x < 92:
 			if withBlocks {
